@@ -41,22 +41,54 @@ pub(crate) fn spec_span(ts: &TimeScale) -> Option<f32> {
     }
 }
 
-/// C03: "becomes terminal exactly when the time since the delay exceeds cycle x (repeats+1)".
-pub(crate) fn spec_is_terminal_given(ts: &TimeScale, time: f32, span: Option<f32>) -> bool {
-    let since = time - ts.delay;
-    match span {
-        Some(x) => since > x,
+/// The total duration as the API reports it: delay + cycle x (repeats+1) (C03), `None` for
+/// infinite repeat.
+pub(crate) fn spec_total(ts: &TimeScale) -> Option<f32> {
+    match spec_span(ts) {
+        Some(x) => Some(ts.delay + x),
+        None => None,
+    }
+}
+
+/// C03: "becomes terminal exactly when the time since the delay exceeds cycle x (repeats+1)" and
+/// "the reported total duration agrees with that behaviour"; C07: "ended <=> time >= total
+/// duration ... stays at the terminal values".  In f32 `time - delay > span` and
+/// `time > delay + span` are two different roundings of the same real comparison and can differ
+/// by one ulp; only the second can agree with what `get_duration` reports, so that is the reading
+/// the contract takes: terminal exactly when the time exceeds the REPORTED total duration.
+pub(crate) fn spec_is_terminal_given(_ts: &TimeScale, time: f32, total: Option<f32>) -> bool {
+    match total {
+        Some(d) => time > d,
         None => false,
     }
 }
 
 pub(crate) fn spec_is_terminal(ts: &TimeScale, time: f32) -> bool {
-    spec_is_terminal_given(ts, time, spec_span(ts))
+    spec_is_terminal_given(ts, time, spec_total(ts))
 }
 
-/// Time within the current cycle, held at the full cycle length on exact multiples (C02).
+/// At the reported end instant, or at/after the end of the last cycle by the time since the delay
+/// (the two roundings again): the position holds the end of the last cycle.
+pub(crate) fn spec_at_end(ts: &TimeScale, time: f32) -> bool {
+    let since = time - ts.delay;
+    let by_total = match spec_total(ts) {
+        Some(d) => time == d,
+        None => false,
+    };
+    let by_span = match spec_span(ts) {
+        Some(x) => since >= x,
+        None => false,
+    };
+    by_total || by_span
+}
+
+/// Time within the current cycle, held at the full cycle length on exact multiples (C02) and at
+/// the end of the last cycle.
 pub(crate) fn spec_cycle_time(ts: &TimeScale, time: f32) -> f32 {
     let since = time - ts.delay;
+    if spec_at_end(ts, time) {
+        return ts.duration;
+    }
     match ts.repeat {
         Repeat::None => since,
         _ => {
@@ -71,6 +103,18 @@ pub(crate) fn spec_cycle_time(ts: &TimeScale, time: f32) -> f32 {
     }
 }
 
+/// "A later cycle has begun": more than one full cycle length has passed; at the end of the last
+/// cycle, every cycle but the last has completed, so this is "there is more than one cycle".
+pub(crate) fn spec_repeating(ts: &TimeScale, time: f32) -> bool {
+    let since = time - ts.delay;
+    match ts.repeat {
+        Repeat::None => false,
+        Repeat::Times(n) if spec_at_end(ts, time) => n > 0,
+        // `since / duration > 1.0` is `since > duration` (same lemma)
+        _ => since / ts.duration > 1.0,
+    }
+}
+
 // -- postcondition clauses of get_position, one named obligation each -------------------------
 
 /// C03: 0% (NotStarted) exactly while time < delay.
@@ -78,14 +122,14 @@ pub(crate) fn post_pos_not_started(ts: &TimeScale, time: f32, r: &TimeScalePosit
     matches!(r, TimeScalePosition::NotStarted) == (time < ts.delay)
 }
 
-/// C03: terminal exactly when time since delay exceeds cycle x (repeats+1); never for Infinite.
+/// C03/C07: terminal exactly when the time exceeds the reported total duration; never for Infinite.
 pub(crate) fn post_pos_terminal(ts: &TimeScale, time: f32, r: &TimeScalePosition) -> bool {
-    post_pos_terminal_given(ts, time, r, spec_span(ts))
+    post_pos_terminal_given(ts, time, r, spec_total(ts))
 }
 
-/// The same clause with the span `cycle x (repeats+1)` computed once by the caller.
-pub(crate) fn post_pos_terminal_given(ts: &TimeScale, time: f32, r: &TimeScalePosition, span: Option<f32>) -> bool {
-    matches!(r, TimeScalePosition::Ended(_)) == (!(time < ts.delay) && spec_is_terminal_given(ts, time, span))
+/// The same clause with the total `delay + cycle x (repeats+1)` computed once by the caller.
+pub(crate) fn post_pos_terminal_given(ts: &TimeScale, time: f32, r: &TimeScalePosition, total: Option<f32>) -> bool {
+    matches!(r, TimeScalePosition::Ended(_)) == (!(time < ts.delay) && spec_is_terminal_given(ts, time, total))
 }
 
 /// C02: terminal position is 100%, or the original 0% for reversing timelines.
@@ -140,18 +184,7 @@ pub(crate) fn post_pos_value(ts: &TimeScale, time: f32, r: &TimeScalePosition) -
 pub(crate) fn post_pos_flags(ts: &TimeScale, time: f32, r: &TimeScalePosition) -> bool {
     match r {
         TimeScalePosition::Active(_, ls) => {
-            let since = time - ts.delay;
-            let rep_ok = match ts.repeat {
-                Repeat::None => !ls.is_repeating,
-                _ => {
-                    // `since / duration > 1.0` is `since > duration` (same lemma)
-                    if since / ts.duration > 1.0 {
-                        ls.is_repeating
-                    } else {
-                        !ls.is_repeating
-                    }
-                }
-            };
+            let rep_ok = ls.is_repeating == spec_repeating(ts, time);
             let ratio = spec_cycle_time(ts, time) / ts.duration;
             let rev_ok = if !ts.reverse {
                 !ls.is_reversing
@@ -182,11 +215,7 @@ impl TimeScale {
 /// C10: "first forward pass" = no later cycle has begun and the cycle is not on its falling
 /// half; `None` exactly at the peak of a reversing cycle, where both readings give 100%.
 pub(crate) fn spec_first_forward_pass(ts: &TimeScale, time: f32) -> Option<bool> {
-    let since = time - ts.delay;
-    let repeating = match ts.repeat {
-        Repeat::None => false,
-        _ => since / ts.duration > 1.0,
-    };
+    let repeating = spec_repeating(ts, time);
     if !ts.reverse {
         Some(!repeating)
     } else {
@@ -333,7 +362,7 @@ fn ts_lemma_terminal_is_constant() {
     let t2: f32 = kani::any();
     kani::assume(pre_get_position(&ts, t1) && pre_get_position(&ts, t2));
     kani::assume(t2 >= t1);
-    let span = spec_span(&ts);
+    let span = spec_total(&ts);
     let p1 = any_position();
     let p2 = any_position();
     kani::assume(post_pos_terminal_given(&ts, t1, &p1, span) && post_pos_terminal_value(&ts, t1, &p1));
@@ -346,9 +375,11 @@ fn ts_lemma_terminal_is_constant() {
     }
 }
 
-/// C03/C07: the reported total duration agrees with the terminal test: no time before the
-/// reported duration is terminal (stated for delay >= 0 and `delay + span` exact, the class
-/// predicate of finding C07-absorb), and it is never terminal under infinite repeat.
+/// C03/C07: the reported total duration agrees with the behaviour, with no side condition on
+/// the configuration: no time before it is terminal, and from it on (`t >= total`, which is what
+/// `is_ended` tests) EVERY position the contract allows is the terminal one - `Ended`, or at
+/// `t == total` exactly the held end of the last cycle - i.e. 100%, or the original 0% for a
+/// reversing timeline.  Never terminal under infinite repeat.
 macro_rules! lemma_duration_agrees {
     ($name:ident, $rep:expr) => {
         #[kani::proof]
@@ -358,15 +389,20 @@ macro_rules! lemma_duration_agrees {
             ts.repeat = $rep;
             let t: f32 = kani::any();
             kani::assume(pre_get_position(&ts, t));
-            kani::assume(ts.delay >= 0.0);
             frem_havoc();
             let total: f32 = kani::any();
             kani::assume(post_get_duration(&ts, total));
-            let pos = any_position_satisfying_phase_clauses(&ts, t);
-            if let Some(c) = cycles_f32(ts.repeat) {
-                let span = ts.duration * c;
-                if (ts.delay + span) - ts.delay == span && t < total {
+            let pos = any_position_satisfying_contract(&ts, t);
+            if cycles_f32(ts.repeat).is_some() {
+                if t < total {
                     assert!(!matches!(pos, TimeScalePosition::Ended(_)));
+                } else {
+                    let terminal = if ts.reverse { 0.0 } else { 1.0 };
+                    match pos {
+                        TimeScalePosition::Ended(p) => assert!(p == terminal),
+                        TimeScalePosition::Active(p, _) => assert!(p == terminal && t == total),
+                        TimeScalePosition::NotStarted => assert!(false),
+                    }
                 }
             } else {
                 assert!(total == f32::INFINITY);
